@@ -200,3 +200,156 @@ def targets(prop, replay=None):
     for which in ('BaseTempoBackend', 'TempoBackend'):
         T.append(Target('ctor/%s' % which, 'backends.tempo_backend.%s.__init__' % which, scen_ctor(which), post_ctor, R2, prop, replay=replay))
     return T
+
+
+# ---- PtTempo._init_pt_tempo_backend: what PT-TEMPO's back end is given
+def scen_pt(unique, dkmax_none):
+    def scen(ip, repo):
+        bath, params = _bath(0), _params()
+        if dkmax_none:
+            params.fields['dkmax'] = None
+        dim, N = Int('dim'), Int('num_steps')
+        ip.assume(z3.And(dim >= 1, N >= 2))
+        pt = Obj('PTm', {})
+        self_ = mkobj(repo, 'pt_tempo.PtTempo', _dimension=dim, _bath=bath, _parameters=params, _unique=unique, _backend_config=Vc('backend_config'),
+                      _backend_instance=None, _num_steps=N, _process_tensor=pt)
+        return {'args': [self_], 'kwargs': {}, 'self': self_, 'bath': bath, 'params': params, 'unique': unique, 'dim': dim, 'N': N, 'pt': pt, 'dkmax_none': dkmax_none,
+                'inputs': {'unique': unique, 'dkmax is None': dkmax_none}}
+    return scen
+
+
+def post_pt(ip, ctx, out):
+    if not expect_no_other_exception(ip, out):
+        return
+    rec = ip.ghost.get('backend_args')
+    if rec is None:
+        return ip.prove('prep/backend-constructed', z3.BoolVal(False))
+    args, kw = rec
+    names = ['dimension', 'influence', 'process_tensor', 'sum_north', 'sum_west', 'num_steps', 'dkmax', 'epsrel', 'config', 'degeneracy_maps']
+    A = {n: _arg(args, kw, i, n) for i, n in enumerate(names)}
+    p, b, dim = ctx['params'].fields, ctx['bath'].fields, ctx['dim']
+    from pyvc.interp import BoundMethod
+    infl = A['influence']
+    ip.prove('prep/influence', z3.BoolVal(isinstance(infl, BoundMethod) and infl.obj is ctx['self'] and getattr(infl.func, 'qualname', '').endswith('PtTempo._influence')))
+    ip.prove('prep/process-tensor-and-size', z3.And(z3.BoolVal(A['process_tensor'] is ctx['pt']), veq_(A['dimension'], dim), veq_(A['num_steps'], ctx['N'])))
+    # dkmax = None means full memory: any cutoff that keeps all num_steps influence tensors (min(num_steps, dkmax + 1) = num_steps)
+    mem = (to_int(A['dkmax']) >= ctx['N'] - 1) if (ctx['dkmax_none'] and A['dkmax'] is not None) else veq_(A['dkmax'], p['dkmax'])
+    ip.prove('prep/memory', z3.And(mem, veq_(A['epsrel'], p['epsrel']), veq_(A['config'], ctx['self'].fields['_backend_config'])),
+             {'dkmax handed over': repr(A['dkmax'])})
+    if ctx['unique']:
+        wn, ww = Ones(uf('max_of', b['north_degeneracy_map'], sort=z3.IntSort()) + 1), Ones(uf('max_of', b['west_degeneracy_map'], sort=z3.IntSort()) + 1)
+        maps = [b['north_degeneracy_map'], b['west_degeneracy_map']]
+    else:
+        wn = ww = Ones(dim * dim)
+        maps = None
+    ip.prove('prep/sums-and-maps', z3.And(veq_(A['sum_north'], wn), veq_(A['sum_west'], ww), veq_(A['degeneracy_maps'], maps)))
+
+
+def pt_registry():
+    R = prep_registry()
+    R.models['backends.pt_tempo_backend.PtTempoBackend'] = R.models['backends.tempo_backend.TempoBackend']
+    return R
+
+
+# ---- the API constructors: every argument reaches the field the other contracts read
+def scen_api(which, variant):
+    def scen(ip, repo):
+        params = mkobj(repo, 'tempo.TempoParameters', _dt=Real('dt'), _dkmax=Int('dkmax'), _epsrel=Real('epsrel'))
+        bath = mkobj(repo, 'bath.Bath', _dimension=Int('dim'), _correlations=Obj('CorrM', {}), _coupling_comm=Vc('comm'), _coupling_acomm=Vc('acomm'))
+        t0 = Real('start_time')
+        cfg = None if variant == 'default-config' else Vc('backend_config')
+        if cfg is not None:
+            ip.assume(cfg != NONE)
+        uq = variant == 'unique'
+        if which == 'Tempo':
+            system, rho = Obj('SysM', {'dimension': Int('dim')}), Vc('initial_state')
+            self_ = mkobj(repo, 'tempo.Tempo')
+            kw = {'system': system, 'bath': bath, 'parameters': params, 'initial_state': rho, 'start_time': t0, 'backend_config': cfg, 'unique': uq,
+                  'name': 'nm', 'description': 'ds'}
+            ctx = {'system': system, 'rho': rho}
+        else:
+            te = Real('end_time')
+            ip.assume(uf('number_of_steps', t0, te, Real('dt'), sort=z3.IntSort()) >= 2, 'requires: at least two steps fit')
+            self_ = mkobj(repo, 'pt_tempo.PtTempo')
+            kw = {'bath': bath, 'start_time': t0, 'end_time': te, 'parameters': params, 'process_tensor_file': None, 'overwrite': False, 'backend_config': cfg, 'unique': uq,
+                  'name': 'nm', 'description': 'ds'}
+            ctx = {'te': te}
+        ctx.update({'args': [self_], 'kwargs': kw, 'self': self_, 'bath': bath, 'params': params, 't0': t0, 'cfg': cfg, 'unique': uq, 'which': which,
+                    'inputs': {'variant': variant}})
+        return ctx
+    return scen
+
+
+def api_registry():
+    R = Registry()
+
+    @model
+    def m_parse(ip, args, kw):
+        ip.ghost['parse_args'] = list(args)
+        return (args[1], uf('parsed_state', args[2]), args[3], Int('dim'))
+
+    @model
+    def m_stub(name):
+        pass
+
+    def stub(name):
+        @model
+        def f(ip, args, kw):
+            ip.ghost.setdefault('stubs', []).append(name)
+        return f
+
+    @model
+    def m_steps(ip, args, kw):
+        return uf('number_of_steps', to_real(args[0]), to_real(args[1]), to_real(args[2]), sort=z3.IntSort())
+    R.models['tempo._tempo_physical_input_parse'] = m_parse
+    R.models['tempo.Tempo._prepare_backend'] = stub('prepare')
+    R.models['pt_tempo.PtTempo._init_pt_tempo_backend'] = stub('prepare')
+    R.models['pt_tempo.PtTempo._init_simple_process_tensor'] = stub('simple-pt')
+    R.models['pt_tempo.PtTempo._init_file_process_tensor'] = stub('file-pt')
+    R.models['util.get_number_of_steps'] = m_steps
+    return R
+
+
+def post_api(ip, ctx, out):
+    w = ctx['which']
+    if out.kind == 'raise':
+        return ip.prove('api/%s/accepts-valid-arguments' % w, z3.BoolVal(False), {'raised': out.value.typ})
+    f = ctx['self'].fields
+    ip.prove('api/%s/parameters-bath' % w, z3.BoolVal(f.get('_parameters') is ctx['params'] and f.get('_bath') is ctx['bath']))
+    ip.prove('api/%s/start-time' % w, veq_(f.get('_start_time'), ctx['t0']), {'stored': repr(f.get('_start_time'))})
+    ip.prove('api/%s/unique' % w, z3.BoolVal(f.get('_unique') is ctx['unique']))
+    if ctx['cfg'] is not None:
+        ip.prove('api/%s/backend-config' % w, veq_(f.get('_backend_config'), ctx['cfg']))
+    else:
+        ip.prove('api/%s/backend-config' % w, z3.BoolVal(f.get('_backend_config') is not None))
+    stubs = ip.ghost.get('stubs', [])
+    ip.prove('api/%s/backend-prepared-last' % w, z3.BoolVal(bool(stubs) and stubs[-1] == 'prepare' and stubs.count('prepare') == 1), {'calls': stubs})
+    ip.prove('api/%s/name-description' % w, z3.BoolVal(f.get('_name') == 'nm' and f.get('_description') == 'ds'), {'name': repr(f.get('_name'))})
+    if w == 'Tempo':
+        pa = ip.ghost.get('parse_args') or []
+        ip.prove('api/Tempo/physical-inputs', z3.BoolVal(len(pa) == 4 and pa[1] is ctx['system'] and pa[2] is ctx['rho'] and pa[3] is ctx['bath'] and f.get('_system') is ctx['system']),
+                 {'handed to the input parser': repr(pa)})
+        ip.prove('api/Tempo/initial-state', veq_(f.get('_initial_state'), uf('parsed_state', ctx['rho'])))
+    else:
+        ip.prove('api/PtTempo/end-time-and-steps', z3.And(veq_(f.get('_end_time'), ctx['te']),
+                 veq_(f.get('_num_steps'), uf('number_of_steps', to_real(ctx['t0']), to_real(ctx['te']), to_real(ctx['params'].fields['_dt']), sort=z3.IntSort()))),
+                 {'num_steps': repr(f.get('_num_steps'))})
+        ip.prove('api/PtTempo/in-memory-process-tensor-by-default', z3.BoolVal('simple-pt' in stubs and 'file-pt' not in stubs), {'calls': stubs})
+        ip.prove('api/PtTempo/coupling-data', z3.And(veq_(f.get('_coupling_comm'), ctx['bath'].fields['_coupling_comm']), veq_(f.get('_coupling_acomm'), ctx['bath'].fields['_coupling_acomm']),
+                                                     veq_(f.get('_dimension'), ctx['bath'].fields['_dimension'])))
+
+
+_t_prep = targets
+
+
+def targets(prop, replay=None):
+    T = _t_prep(prop, replay)
+    RP = pt_registry()
+    for u in (False, True):
+        for dn in (False, True):
+            T.append(Target('prep/PtTempo[unique=%s,dkmax=%s]' % (u, 'None' if dn else 'K'), 'pt_tempo.PtTempo._init_pt_tempo_backend', scen_pt(u, dn), post_pt, RP, prop, replay=replay))
+    RA = api_registry()
+    for which, q in (('Tempo', 'tempo.Tempo.__init__'), ('PtTempo', 'pt_tempo.PtTempo.__init__')):
+        for variant in ('plain', 'unique', 'default-config'):
+            T.append(Target('api/%s[%s]' % (which, variant), q, scen_api(which, variant), post_api, RA, prop, replay=replay))
+    return T
